@@ -80,6 +80,16 @@ theorem block_write_read (s : Stmt) (hs : s ∈ schemas) (ver : Nat → Nat) (st
   | none => rw [hw] at h; cases h
   | some p => exact rd_wr_same ver s p.1 p.2 st s0 hw hin
 
+/-- the same fixed point for the block types whose schema obeys only the weaker discipline (single assignment; conditions
+and counts read only what may have been transferred before them — e.g. a second loop reading the lengths a first loop
+transferred: NiTriStripsData, NiSkinPartition) -/
+theorem block_fixed_point_weak (s : Stmt) (hs : s ∈ schemasWeak) (ver : Nat → Nat) (s0 : Store) (b : Bytes) (s1 : Store)
+    (rest : Bytes) (hb : IsBytes b) (hrd : rd ver s s0 [] b = some (s1, rest)) : wr ver s s1 [] ++ rest = b := by
+  have h := schemasWeak_wfw s hs
+  cases hw : wfw 0 s [] with
+  | none => rw [hw] at h; cases h
+  | some W' => exact wr_rd_weak ver s W' s0 b s1 rest hw hb hrd
+
 /-- the bytes a block occupies are the sum of the widths of the scalars its schema transfers (the size table entry) -/
 theorem block_size (s : Stmt) (ver : Nat → Nat) (st : Store) : (wr ver s st []).length = (widths ver s st []).sum :=
   wr_length ver s st []
